@@ -32,15 +32,17 @@ var replayGens = map[string]replayGen{}
 // written into the repository). The test must FAIL iff the real code violates the property on
 // the model's input (oracles are independent of the contracts).
 func runReplay(kind string, o *Obligation, repo string, engines []*Engine) *ReplayResult {
-	g := replayGens[kind]
-	if g == nil {
-		return nil
+	// several generators may be named ("c14,c13"): the first one that has a scenario for the obligation is used
+	for _, k := range strings.Split(kind, ",") {
+		g := replayGens[strings.TrimSpace(k)]
+		if g == nil {
+			continue
+		}
+		if module, pkgDir, src, ok := g(o); ok {
+			return execReplay(repo, module, pkgDir, src)
+		}
 	}
-	module, pkgDir, src, ok := g(o)
-	if !ok {
-		return nil
-	}
-	return execReplay(repo, module, pkgDir, src)
+	return nil
 }
 
 func execReplay(repo, module, pkgDir, src string) *ReplayResult {
@@ -3375,8 +3377,11 @@ func TestVerifReplay(t *testing.T) {
 // ---------- C14 (derived reactive values) ----------
 func init() { replayGens["c14"] = replayC14 }
 
+var reC14SourceSide = regexp.MustCompile(`^reactive\.(set\.|readableSet\.OnUpdate|variable\.(Init|Set|Compute|updateValue)|readableVariable\.)`)
+
 func replayC14(o *Obligation) (string, string, string, bool) {
-	if !strings.HasPrefix(o.Name, "reactive.") {
+	if !strings.HasPrefix(o.Name, "reactive.") || reC14SourceSide.MatchString(o.Name) {
+		// (the subscription / writer side of variables and sets: the scenarios of c13)
 		return "", "", "", false
 	}
 	if strings.Contains(o.Name, "cbarg.anytime") {
